@@ -1,7 +1,7 @@
 /-
 C12, soundness of the kernel decision on class indices (`Spec/SchemaFactsCore.lean`):
 
-  classesOk texts cls → schemaEqIdx cls a b → schemaEq (toDump texts a) (toDump texts b)
+  classesOk texts cls → schemaEqIdx cls a b → schemaEq (toDump texts strs a) (toDump texts strs b)
 
 and its lift to the whole table of pairs (`tableOk_sound`).
 -/
@@ -58,11 +58,11 @@ theorem classesOk_canon {texts : List Str} {cls : List Nat} (h : classesOk texts
 /-! ### one pair -/
 
 /-- The canonical row read off a class-index row. -/
-def rowOfClass (texts : List Str) (r : CRowI) : CMasterRow :=
-  ⟨toStr r.db, toStr r.type, toStr r.name, toStr r.tbl, r.cls.map fun i => canonChars (textAt texts i)⟩
+def rowOfClass (texts strs : List Str) (r : CRowI) : CMasterRow :=
+  ⟨toStr strs r.db, toStr strs r.type, toStr strs r.name, toStr strs r.tbl, r.cls.map fun i => canonChars (textAt texts i)⟩
 
-theorem canonRow_toRow {texts : List Str} {cls : List Nat} (hc : classesOk texts cls = true) (r : IRow) :
-    canonRow (toRow texts r) = rowOfClass texts (classRow cls r) := by
+theorem canonRow_toRow {texts : List Str} {cls : List Nat} (strs : List Str) (hc : classesOk texts cls = true) (r : IRow) :
+    canonRow (toRow texts strs r) = rowOfClass texts strs (classRow cls r) := by
   cases r with
   | mk db type name tbl sql =>
     cases sql with
@@ -71,18 +71,19 @@ theorem canonRow_toRow {texts : List Str} {cls : List Nat} (hc : classesOk texts
       simp only [canonRow, toRow, rowOfClass, classRow, Option.map_some]
       rw [classesOk_canon hc i]
 
-theorem master_canon {texts : List Str} {cls : List Nat} (hc : classesOk texts cls = true) (a : IDump) :
-    (canonDump (toDump texts a)).master = (a.master.map (classRow cls)).map (rowOfClass texts) := by
+theorem master_canon {texts : List Str} {cls : List Nat} (strs : List Str) (hc : classesOk texts cls = true) (a : IDump) :
+    (canonDump (toDump texts strs a)).master = (a.master.map (classRow cls)).map (rowOfClass texts strs) := by
   simp only [canonDump, toDump, List.map_map]
   apply List.map_congr_left
   intro r _
-  exact canonRow_toRow hc r
+  exact canonRow_toRow strs hc r
 
 /-- The flattened index entry read back. -/
-def idxOf (p : NStr × NStr × IIndex) : Str × Str × Index := (toStr p.1, toStr p.2.1, toIndex p.2.2)
+def idxOf (strs : List Str) (p : NStr × NStr × IIndex) : Str × Str × Index :=
+  (toStr strs p.1, toStr strs p.2.1, toIndex strs p.2.2)
 
-theorem indexes_canon (texts : List Str) (a : IDump) :
-    (canonDump (toDump texts a)).indexes = (flatIdx a).map idxOf := by
+theorem indexes_canon (texts strs : List Str) (a : IDump) :
+    (canonDump (toDump texts strs a)).indexes = (flatIdx a).map (idxOf strs) := by
   simp only [canonDump, toDump, flatIdx]
   generalize a.indexes = l
   induction l with
@@ -93,27 +94,27 @@ theorem indexes_canon (texts : List Str) (a : IDump) :
     simp only [toTableIdx, List.map_map]
     rfl
 
-theorem schemaEqIdx_sound {texts : List Str} {cls : List Nat} (hc : classesOk texts cls = true) {a b : IDump}
-    (h : schemaEqIdx cls a b = true) : schemaEq (toDump texts a) (toDump texts b) = true := by
+theorem schemaEqIdx_sound {texts : List Str} {cls : List Nat} (strs : List Str) (hc : classesOk texts cls = true) {a b : IDump}
+    (h : schemaEqIdx cls a b = true) : schemaEq (toDump texts strs a) (toDump texts strs b) = true := by
   simp only [schemaEqIdx, Bool.and_eq_true] at h
   obtain ⟨⟨hm, ht⟩, hi⟩ := h
   simp only [schemaEq, cdumpEq, Bool.and_eq_true]
   refine ⟨⟨?_, ?_⟩, ?_⟩
-  · rw [master_canon hc a, master_canon hc b]
+  · rw [master_canon strs hc a, master_canon strs hc b]
     exact sameSet_map _ hm
-  · show sameSet (a.tables.map toTable) (b.tables.map toTable) = true
+  · show sameSet (a.tables.map (toTable strs)) (b.tables.map (toTable strs)) = true
     exact sameSet_map _ ht
-  · rw [indexes_canon texts a, indexes_canon texts b]
+  · rw [indexes_canon texts strs a, indexes_canon texts strs b]
     exact sameSet_map _ hi
 
 /-! ### the whole table -/
 
-theorem tableOk_sound {texts : List Str} {cls : List Nat} {dumps : List IDump} {pairs : List (Nat × Nat)}
+theorem tableOk_sound {texts : List Str} {cls : List Nat} (strs : List Str) {dumps : List IDump} {pairs : List (Nat × Nat)}
     (hc : classesOk texts cls = true) (ht : tableOk cls dumps pairs = true) :
-    ∀ p ∈ pairs, schemaEq (toDump texts (dumpAt dumps p.1)) (toDump texts (dumpAt dumps p.2)) = true := by
+    ∀ p ∈ pairs, schemaEq (toDump texts strs (dumpAt dumps p.1)) (toDump texts strs (dumpAt dumps p.2)) = true := by
   intro p hp
   simp only [tableOk, List.all_eq_true] at ht
-  exact schemaEqIdx_sound hc (ht p hp)
+  exact schemaEqIdx_sound strs hc (ht p hp)
 
 /-! ### non-vacuity: two texts that differ only in whitespace and quoting -/
 
@@ -123,15 +124,16 @@ namespace Example
 def texts : List Str := [['a', ' ', '[', 'b', ']'], ['a', ' ', ' ', 'b']]
 def cls : List Nat := [0, 0]
 
-def row (i : Nat) : IRow := ⟨[109], [116], [120], [120], some i⟩
+def strs : List Str := [['m'], ['t'], ['x']]
+def row (i : Nat) : IRow := ⟨0, 1, 2, 2, some i⟩
 def dumps : List IDump := [⟨[row 0], [], []⟩, ⟨[row 1], [], []⟩]
 
 example : texts.getD 0 [] ≠ texts.getD 1 [] := by decide
 example : classesOk texts cls = true := by decide +kernel
 example : tableOk cls dumps [(0, 1)] = true := by decide +kernel
 
-example : schemaEq (toDump texts (dumpAt dumps 0)) (toDump texts (dumpAt dumps 1)) = true :=
-  tableOk_sound (texts := texts) (cls := cls) (dumps := dumps) (pairs := [(0, 1)])
+example : schemaEq (toDump texts strs (dumpAt dumps 0)) (toDump texts strs (dumpAt dumps 1)) = true :=
+  tableOk_sound (texts := texts) (cls := cls) strs (dumps := dumps) (pairs := [(0, 1)])
     (by decide +kernel) (by decide +kernel) (0, 1) (List.mem_singleton.mpr rfl)
 
 end Example
